@@ -486,10 +486,13 @@ def run_c03(ck):
                     n = bisect(harness, n0, where[0], ps[where[1]], bits[n0])
                     av = args_of(descs[n0]["ptys"], n)
                     rc3, out3, _ = vlib.sh([harness, "enc", "call", n0, str(where[0])] + [str(a) for a in av if True])
-                    detail += "\nmodel and compiled code first differ at %s(%s) under flags $%02x; real code: %s" % (n0, av, where[0], out3.strip())
                     rp.update({"method": n0, "flags": where[0], "args": av, "model_vs_code": out3.strip()})
                     if rc3 == 1:
                         kind = "counterexample"
+                        detail = ("found by bisecting the tie digests (the sampled falsifier had missed it): %s(%s) under tracked flags $%02x: %s\nbroken: %s"
+                                  % (n0, ", ".join(str(a) for a in av), where[0], out3.strip().splitlines()[-1], "; ".join(b[:120] for b in broken)))
+                    else:
+                        detail += "\nmodel and compiled code first differ at %s(%s) under flags $%02x; real code: %s" % (n0, av, where[0], out3.strip())
             except Exception as e:  # diagnosis only
                 detail += "\n(bisect failed: %s)" % e
         ck.violation("obligation", kind, detail, rp)
